@@ -4,6 +4,7 @@ import (
 	"0chain.net/core/sortedmap"
 	"encoding/json"
 	"fmt"
+	"math"
 	"strings"
 	"time"
 
@@ -75,14 +76,39 @@ func (gl *GlobalSettings) update(inputMap config2.StringMap) error {
 		if !info.Mutable {
 			return fmt.Errorf("%s cannot be modified via a transaction", key)
 		}
-		_, err = config2.StringToInterface(value, info.SettingType)
+		var parsed interface{}
+		parsed, err = config2.StringToInterface(value, info.SettingType)
 		if err != nil {
 			return fmt.Errorf("%v value %v cannot be parsed as a %s",
 				key, value, config2.ConfigTypeName[info.SettingType])
 		}
+		if err := validateGlobalValue(key, parsed); err != nil {
+			return fmt.Errorf("%v value %v is not valid: %v", key, value, err)
+		}
 		gl.Fields[key] = value
 	}
 
+	return nil
+}
+
+// validateGlobalValue rejects values that have the declared type but that the nodes cannot put in force
+// (chain.ConfigImpl.Update would fail on them, or silently keep each node's local value).
+func validateGlobalValue(key string, parsed interface{}) error {
+	switch key {
+	case config2.GlobalSettingName[config2.TransactionMinFee],
+		config2.GlobalSettingName[config2.TransactionMaxFee]:
+		f, ok := parsed.(float64)
+		if !ok || math.IsNaN(f) || math.IsInf(f, 0) {
+			return fmt.Errorf("not a finite number")
+		}
+		if _, err := currency.ParseZCN(f); err != nil {
+			return err
+		}
+	case config2.GlobalSettingName[config2.BlockProposalWaitMode]:
+		if s, _ := parsed.(string); s != "static" && s != "dynamic" {
+			return fmt.Errorf("must be static or dynamic")
+		}
+	}
 	return nil
 }
 
